@@ -1,6 +1,6 @@
 (* C09 — property theorems.  Statements only: each is closed by [exact] of a lemma proved elsewhere.
    [gen_tables], [wrapper] are the definitions regenerated from /repo by the translators on every run. *)
-From QT Require Import C09.Model C09.ModelThm C09.GenOk C09.Events C09.Stateful C09.Conditions Gen.C09Gen.
+From QT Require Import C09.Model C09.ModelThm C09.GenOk C09.Events C09.Stateful C09.Conditions C09.Listen Gen.C09Gen.
 Open Scope string_scope.
 Open Scope Z_scope.
 
@@ -118,6 +118,15 @@ Theorem C09_route_without_feature_404 :
     handle gen_tables (flags_from gen_derived at_) (route_template r) m l json = Status 404.
 Proof. exact (fun at_ => route_without_feature_404 gen_tables at_ gen_cond_ok). Qed.
 Print Assumptions C09_route_without_feature_404.
+
+(* GET /listen: the session listens at the caller's level (the call in get_listen and the signature of reset_and_wait are
+   regenerated), every event class carries the specified level of its type, hence whatever was triggered and whatever
+   ?timeout= was asked, a delivered event is one the listener's level permits *)
+Theorem C09_listen_only_permitted :
+  forall level timeout triggered t,
+    In t (listen_model level timeout triggered) -> exists r, event_level_spec t = Some r /\ r <= level.
+Proof. exact listen_only_permitted. Qed.
+Print Assumptions C09_listen_only_permitted.
 
 (* non-vacuity, with every optional feature on: PATCH /ports/id/value reaches patch_port_value (normal): served for
    normal, 403 for view-only, 401 without authentication; POST /reset is refused to normal; an unknown shape is 404 *)
